@@ -14,6 +14,7 @@ def decOp : SExp → Option Op
   | .list [.atom "oabs", k] => do pure (.oabs (← k.asInt?))
   | .list [.atom "aug", a, b] => do pure (.augment (← a.asInt?) (← b.asInt?))
   | .list [.atom "tags", ts] => do pure (.addTags (← ts.asStrs?))
+  | .list [.atom "setamp", k] => do pure (.setAmp (← k.asInt?))
   | _ => none
 
 def decCode : SExp → Option Code
@@ -78,6 +79,7 @@ def encOp : Op → SExp
   | .oabs k => .list [.atom "oabs", ofInt k]
   | .augment a b => .list [.atom "aug", ofInt a, ofInt b]
   | .addTags ts => .list [.atom "tags", .list ((sortStrs ts).map .atom)]
+  | .setAmp k => .list [.atom "setamp", ofInt k]
 
 def encCode (c : Code) : SExp := .list [.atom "k", .atom c.sym, .list (c.ops.map encOp)]
 
